@@ -261,8 +261,8 @@ def c04_core():
     pr = pairs()
     quick_pick = {  # one ingredient per pair kind in the every-change tier; every combination in the thorough tier
         "ignore_then": "validate", "then_ignore": "filter", "ignored": "recover", "to": "try_map", "to_span": "or_not2",
-        "to_slice": "choice_emit", "delimited_by": "validate", "padded_by": "or_not2", "repeated_unit": "validate",
-        "repeated_unit_fast": "choice_emit", "separated_unit": "try_map",
+        "to_slice": "choice_emit", "delimited_by": "validate", "padded_by": "or_not2", "repeated_unit": "filter",
+        "repeated_unit_fast": "or_not2", "separated_unit": "try_map",
     }
     for pn, (fa, fb) in pr.items():
         for iname, X in ing.items():
@@ -274,16 +274,16 @@ def c04_core():
             s.append(Shape(f"c04_pair_{pn}_{iname}", a, "pair", {"C04": tier}, n=n, mod="pt", node2=b, pre=pre, timeout=900,
                            aims=f"{pn}: the elided formulation behaves like the value-building one when the elided parser contains {iname}"))
     # check() vs parse() on grammars with value-dependent ingredients in every position
-    def cm(name, node, tier=Q, n=3, **kw):
+    def cm(name, node=None, tier=Q, n=3, **kw):
         s.append(Shape(f"c04_check_{name}", node, "check_mode", {"C04": tier}, n=n, mod="pt", timeout=900,
                        aims="check(x) accepts iff parse(x) accepts and returns the identical error list", **kw))
 
-    cm("choice_emit", rest_after(Or3(Tag(1, Then(V(Just(0), 1), Just(1))), Tag(2, Then(V(Just(2), 2), V(Just(3), 3))), Tag(3, V(Any(), 1)))))
+    cm("choice_emit", tier=T, node=rest_after(Or3(Tag(1, Then(V(Just(0), 1), Just(1))), Tag(2, Then(V(Just(2), 2), V(Just(3), 3))), Tag(3, V(Any(), 1)))))
     cm("filter_try_map", rest_after(Or3(Tag(1, Then(Filter(Any(), 0), Just(1))), Tag(2, TryMap(Then(Any(), Any()), 2)), Tag(3, V(Any(), 1)))))
-    cm("rep_sep", Then(Rep(Then(V(Just(0), 1), Just(1)), K(0), INF), Sep(V(Just(2), 2), Just(3), K(0), INF, FK(False), FP(4))), n=4)
+    cm("rep_sep", tier=T, node=Then(Rep(Then(V(Just(0), 1), Just(1)), K(0), INF), Sep(V(Just(2), 2), Just(3), K(0), INF, FK(False), FP(4))), n=4)
     cm("lookahead", rest_after(Or(Tag(1, Then(Rewind(V(Just(0), 1)), Then(Not(Just(1)), Any()))), Tag(2, AndIs(V(Any(), 2), NoneOf1(2))))))
     cm("recover_via", rest_after(Or(Tag(1, Then(RecVia(Then(Just(0), Just(1)), To(Any(), 0xFB)), Just(2))), Tag(2, Sp(Any())))))
-    cm("recover_skip", rest_after(RecSkipRetry(Then(V(Just(0), 1), Just(1)), Any(), Just(2))), n=4)
+    cm("recover_skip", tier=T, node=rest_after(RecSkipRetry(Then(V(Just(0), 1), Just(1)), Any(), Just(2))), n=4)
     cm("recover_skip_until", rest_after(RecSkipUntil(Then(Just(0), Just(1)), Any(), Just(2))), n=4, tier=T)
     cm("folds", rest_after(Then(Foldl(V(Just(0), 1), Then(V(Just(1), 2), Just(2))), OrNot(Foldr(Just(3), V(Any(), 3))))), n=4, tier=T)
     cm("boxed", rest_after(Bx(Or(Bx(Tag(1, Then(V(Just(0), 1), Just(1)))), Bx(Tag(2, Filter(Then(Any(), V(Any(), 2)), 2)))))), tier=T)
@@ -312,9 +312,9 @@ def c05_core():
     add("rep_counted", rest_after(RepUnit(Then(V(Just(0), 1), Just(1)), K(1), K(2))), n=4,
         aims="Repeated counted unit path")
     add("sep", rest_after(Sep(V(Just(0), 1), V(Just(1), 2), K(0), INF, FP(2), FP(3))), n=4, timeout=900,
-        always_accepts=True, aims="SeparatedBy: an emitting separator that is consumed and then given back leaves no emission")
+        always_accepts=True, tier=T, aims="SeparatedBy: an emitting separator that is consumed and then given back leaves no emission")
     add("sep_item_partial", rest_after(Sep(Then(V(Just(0), 1), Just(1)), V(Just(2), 2), K(0), INF, FK(False), FP(3))), n=4, timeout=900,
-        always_accepts=True, aims="item emits then fails after a separator")
+        always_accepts=True, tier=T, aims="item emits then fails after a separator")
     add("or_not", rest_after(OrNot(Then(V(Just(0), 1), Just(1)))), always_accepts=True, aims="OrNot: emission of the failed optional vanishes")
     add("not", rest_after(Then(Not(Then(V(Any(), 1), Just(0))), V(Any(), 2))),
         aims="Not: nothing emitted inside negative lookahead is reported, whether the inner parser succeeds or fails")
@@ -327,8 +327,8 @@ def c05_core():
     add("rewind_fail", rest_after(Or(Tag(1, Then(Rewind(V(Just(0), 1)), Just(1))), Tag(2, V(Any(), 2)))),
         aims="rewind then failure inside an alternative")
     add("foldl", rest_after(Foldl(V(Just(0), 1), Then(V(Just(1), 2), Just(2)))), n=4,
-        aims="foldl: the failing last iteration's emission vanishes")
-    add("foldr", rest_after(Foldr(Then(V(Just(0), 1), Just(1)), V(Any(), 2))), n=4, aims="foldr likewise")
+        tier=T, aims="foldl: the failing last iteration's emission vanishes")
+    add("foldr", rest_after(Foldr(Then(V(Just(0), 1), Just(1)), V(Any(), 2))), n=4, tier=T, aims="foldr likewise")
     add("recover_first_attempt", rest_after(RecVia(Then(V(Any(), 1), Just(0)), To(V(Any(), 2), 0xFB))),
         aims="recover_with: emissions of the failed first attempt vanish; the strategy's stay; then the recovered error")
     add("nested_or_in_rep", rest_after(Rep(Or(Tag(1, Then(V(Just(0), 1), Just(1))), Tag(2, V(Just(0), 2))), K(0), INF)), n=4, tier=T,
@@ -399,7 +399,7 @@ def c08_core():
     add("skip_retry", rest_after(Sp(RecSkipRetry(Tag(1, Then(Just(0), Just(1))), Any(), Just(2)))), n=4, timeout=900,
         aims="skip_then_retry_until: retry p after each skip; give up when until matches or skip fails")
     add("skip_retry_emitting", rest_after(RecSkipRetry(Then(Validate(Just(0), 1), Just(1)), Any(), Just(2))), n=4, timeout=900,
-        aims="only an error-free retry is accepted")
+        tier=T, aims="only an error-free retry is accepted")
     add("via_n4", rest_after(Sp(RecVia(Tag(1, Then(Just(0), Then(Just(1), Just(2)))), Sp(To(Then(Any(), Any()), 0xFB))))), n=4, tier=T, timeout=1200)
     add("skip_until_n5", rest_after(Sp(RecSkipUntil(Tag(1, Then(Just(0), Just(1))), Any(), Just(2)))), n=5, tier=T, timeout=2400)
     return s
